@@ -1,14 +1,22 @@
 (* Generic case format shared with the Go harness (harness/common.go: WriteCoq). *)
 From Verif Require Import Base.Bytes.
-From Coq Require Import String.
+From Coq Require Import String Ascii.
 
 Inductive op := Op (code : N) (args : list string).
 Record case := mk_case { c_idx : nat; c_ops : list op; c_obs : list (list string) }.
 
 Definition dop := (N * list bytes)%type.
-Definition decode_op (o : op) : dop := match o with Op c a => (c, map unhex a) end.
-Definition decode_obs (o : list (list string)) : list (list bytes) := map (map unhex) o.
-Definition obs_eqb : list (list bytes) -> list (list bytes) -> bool := list_eqb (list_eqb bytes_eqb).
+(* "!LLLLLLLLSS" = pattern of length L (8 hex digits) with seed S; "#LLLLLLLLHHHHHHHHHHHHHHHH" = digest *)
+Definition decode_str (s : string) : bytes :=
+  match s with
+  | String "!" r => let b := unhex r in pattern (dbe (firstn 4 b)) (dbe (skipn 4 b))
+  | String "#" r => let b := unhex r in [256; dbe (firstn 4 b); dbe (skipn 4 b)]
+  | _ => unhex s
+  end.
+Definition decode_op (o : op) : dop := match o with Op c a => (c, map decode_str a) end.
+Definition decode_obs (o : list (list string)) : list (list bytes) := map (map decode_str) o.
+(* model on the left, observation on the right *)
+Definition obs_eqb : list (list bytes) -> list (list bytes) -> bool := list_eqb (list_eqb bytes_match).
 
 Definition arg (n : nat) (a : list bytes) : bytes := nth n a [].
 
